@@ -53,6 +53,18 @@ AnswersAt(d, ks) ==
 
 JsonTable == [k \in 1 .. Len(KeySeqSeq) |-> [d \in 1 .. Len(DocSeq) |-> AnswersAt(DocSeq[d], KeySeqSeq[k])]]
 
+(* two paths in ONE query that share a variable (a statement parameter) at the same position and differ only in a
+   constant key/index: x.data[v][c1] and x.data[v][c2], or x.data[c1][v] and x.data[c2][v].  The answer is the
+   pair of the two path answers. *)
+Unordered(set) == {q \in set \X set : ~Same(q[1], q[2]) /\ \E n \in 1 .. Len(SetToSeq(set)) : \E m \in n + 1 .. Len(SetToSeq(set)) :
+                                          Same(SetToSeq(set)[n], q[1]) /\ Same(SetToSeq(set)[m], q[2])}
+PairQs   == {[var |-> v, pos |-> 1, c1 |-> q[1], c2 |-> q[2]] : v \in Keys1, q \in Unordered(Keys2)}
+            \cup {[var |-> v, pos |-> 2, c1 |-> q[1], c2 |-> q[2]] : v \in Keys2, q \in Unordered(Keys1)}
+PairQSeq == SetToSeq(PairQs)
+PairKeys(q, c) == IF q.pos = 1 THEN <<q.var, c>> ELSE <<c, q.var>>
+PairTable == [n \in 1 .. Len(PairQSeq) |-> [d \in 1 .. Len(DocSeq) |->
+                 <<Path(DocSeq[d], PairKeys(PairQSeq[n], PairQSeq[n].c1)), Path(DocSeq[d], PairKeys(PairQSeq[n], PairQSeq[n].c2))>>]]
+
 ---------------------------------------------------------------------------
 (* arrays *)
 IntItems == {1, 2, 3}
@@ -91,7 +103,7 @@ ASSUME PrintT(<<"LawOfTranscription", LawOfTranscription, Cardinality(LawTable)>
 
 ASSUME JsonSerialize(IOEnv.OUT,
          [ keyorder |-> KeyOrder, strlens |-> StrLens,
-           docs |-> DocSeq, keys |-> KeySeqSeq, ops |-> OpSeq, consts |-> ConstSeq, inkeys |-> InKeySeq, json |-> JsonTable,
+           docs |-> DocSeq, keys |-> KeySeqSeq, ops |-> OpSeq, consts |-> ConstSeq, inkeys |-> InKeySeq, json |-> JsonTable, pairq |-> PairQSeq, pairs |-> PairTable,
            intarrs |-> IntArrSeq, intq |-> IntQSeq, intans |-> ArrTable(IntQSeq, IntArrSeq),
            strarrs |-> StrArrSeq, strq |-> StrQSeq, strans |-> ArrTable(StrQSeq, StrArrSeq),
            law |-> LawTable, lawholds |-> LawOfTranscription ])
